@@ -455,6 +455,8 @@ def bounded(rep, tier):
 
 
 def check(rep, tier):
+    from vlib import statecensus
+    statecensus.obligations(rep, 'C20', 'all')
     rep.dropped = 'function bodies read with ast.parse; census over the source text of every mindsdb_sql module'
     rep.assume('T3: entry points whose writes are confined to objects they allocate compute a function of their arguments under any interleaving',
                'CPython: set.add / `in` on the single shared set are atomic under the GIL', 'thread schedules are not explored (outside contract-based deduction)')
